@@ -94,6 +94,8 @@ runs:
 		var spec c14sim.RunSpec
 		if len(cmd.Explicit) > 0 {
 			spec = cmd.Explicit[ri]
+		} else if cmd.History {
+			spec = c14sim.GenHistorySpec(cmd.Seed, ri, pool, eligible)
 		} else {
 			spec = c14sim.GenRunSpec(cmd.Seed, ri, pool, eligible)
 		}
@@ -105,7 +107,11 @@ runs:
 			zzsimrt.TraceMark(uint64(ri))
 			out := executeRun(&spec, pool, cmd.RecordHot)
 			res.RunsDone++
-			res.Strategies[spec.Strategy]++
+			if cmd.History {
+				res.Strategies["long-history(sequential)"]++
+			} else {
+				res.Strategies[spec.Strategy]++
+			}
 			res.Calls += out.calls
 			res.Switches += out.rr.SwitchCount
 			res.Preempts += out.rr.PreemptsFired
@@ -171,6 +177,8 @@ runs:
 					var s c14sim.RunSpec
 					if len(cmd.Explicit) > 0 {
 						s = cmd.Explicit[j]
+					} else if cmd.History {
+						s = c14sim.GenHistorySpec(cmd.Seed, j, pool, eligible)
 					} else {
 						s = c14sim.GenRunSpec(cmd.Seed, j, pool, eligible)
 					}
@@ -295,8 +303,8 @@ func executeRun(spec *c14sim.RunSpec, pool []*c14sim.Key, recordHot bool) *runOu
 			for ci, cs := range ts.Calls {
 				k := pool[cs.Key]
 				y0 := zzsimrt.TaskYields()
-				r, mv := c14sim.DoCall(k, cs.Form, shared[cs.Shared], hooks)
-				perTask[ti] = append(perTask[ti], c14sim.CallResult{Task: ti, Call: ci, Key: cs.Key, Form: cs.Form, Result: r, MapViolation: mv, Yields: zzsimrt.TaskYields() - y0})
+				r, mv, again := c14sim.DoCallKeep(k, cs.Form, shared[cs.Shared], hooks)
+				perTask[ti] = append(perTask[ti], c14sim.CallResult{Task: ti, Call: ci, Key: cs.Key, Form: cs.Form, Result: r, MapViolation: mv, Yields: zzsimrt.TaskYields() - y0, Again: again})
 			}
 		}
 	}
@@ -320,6 +328,14 @@ func executeRun(spec *c14sim.RunSpec, pool []*c14sim.Key, recordHot bool) *runOu
 		if cr.MapViolation != "" {
 			out.violation = &c14sim.Violation{Class: "caller-map-modified", Detail: cr.MapViolation, Task: cr.Task, Call: cr.Call, Key: cr.Key, Form: cr.Form, Source: k.Source, Params: k.Params}
 			return out
+		}
+		if cr.Again != nil {
+			// O1b: what a call returned must not change afterwards (no aliasing of state reused by later calls)
+			if now := cr.Again(); now != cr.Result {
+				out.violation = &c14sim.Violation{Class: "result-changed-after-return", Detail: "the values a call returned read differently after other calls had run",
+					Task: cr.Task, Call: cr.Call, Key: cr.Key, Form: cr.Form, Source: k.Source, Params: k.Params, Expected: cr.Result, Observed: now}
+				return out
+			}
 		}
 		if cr.Result != k.Ref {
 			out.violation = &c14sim.Violation{Class: "result-differs", Detail: "result of a call differs from the result of a lone first call with the same source and parameters",
